@@ -8,6 +8,10 @@ Definition ttl_iri_ok (s : str) : bool :=
 (* a plain literal whose value resolve_query_term leaves alone *)
 Definition ttl_value_ok (v : str) : bool :=
   negb (starts_with_c cLT v) && negb (starts_with_c cDQ v) && negb (contains_c cCOLON v).
+(* a component of a quoted triple in Turtle: as in N-Triples, and no '{' anywhere in its text (the annotation
+   marker `{|` is looked for in the whole object text) *)
+Definition nobrace_c (c : N) : bool := negb (c =? cLBRACE).
+Definition comp_ttl (t : term) : bool := comp_ok t && forallb nobrace_c (render_term t).
 Definition sPREFIX_UP_ : str := [80;82;69;70;73;88].
 Definition wf_term_ttl (t : term) : bool :=
   match t with
@@ -22,22 +26,24 @@ Definition wf_term_ttl (t : term) : bool :=
                 | SLang tag => forallb tag_char tag
                 | SDt iri => wf_iri iri && negb (contains_c cLBRACE iri)
                 end
-  | _ => false
+  | TQuoted s p o => comp_ttl s && comp_ttl p && comp_ttl o
   end.
 Definition is_lit (t : term) : bool := match t with TLit _ _ => true | _ => false end.
 Definition ws4_char (c : N) : bool := (c =? cSP) || (c =? cTAB) || (c =? cLF) || (c =? cCR).
 Definition sep4_ok (w : str) : bool := negb (is_empty w) && forallb ws4_char w.
 Definition wf_pad_ttl (pd : pad) : bool :=
   ws_ok (w0 pd) && sep4_ok (w1 pd) && sep4_ok (w2 pd) && forallb ws4_char (w3 pd) && ws_ok (w4 pd).
-Definition wf_objs (os : list term) : bool := negb (is_empty os) && forallb wf_term_ttl os.
-Definition wf_po (po : term * list term) : bool := wf_term_ttl (fst po) && negb (is_lit (fst po)) && wf_objs (snd po).
+Definition wf_objs (os : list term) : bool := negb (is_empty os) && forallb (fun o => wf_term_ttl o && negb (is_quoted_term o)) os.
+Definition wf_po (po : term * list term) : bool :=
+  wf_term_ttl (fst po) && negb (is_lit (fst po)) && negb (is_quoted_term (fst po)) && wf_objs (snd po).
 Definition wf_list (s : term) (pos : list (term * list term)) : bool :=
-  wf_term_ttl s && negb (is_lit s) && negb (is_empty pos) && forallb wf_po pos.
+  wf_term_ttl s && negb (is_lit s) && negb (is_quoted_term s) && negb (is_empty pos) && forallb wf_po pos.
 Definition wf_item_ttl (i : item) : bool :=
   match i with
   | IBlank ws => ws_ok ws
   | IComment ws _ => ws_ok ws
-  | IStmt pd s p o None => wf_pad_ttl pd && wf_term_ttl s && negb (is_lit s) && wf_term_ttl p && negb (is_lit p) && wf_term_ttl o
+  | IStmt pd s p o None => wf_pad_ttl pd && wf_term_ttl s && negb (is_lit s) && wf_term_ttl p && negb (is_lit p)
+                           && negb (is_quoted_term p) && wf_term_ttl o
   | IPrefix name iri => forallb name_char name && forallb n3_char iri
   | IList s pos => wf_list s pos          (* s p o , o ; p o .   with single blanks, as Spec.render_item writes it *)
   | _ => false
